@@ -98,13 +98,14 @@ thread_local! { static JOINER: std::cell::RefCell<Option<MDK<MdkMemoryStorage>>>
 
 /// A creator invites a fresh joiner: returns the welcome rumor's (tags, content), and parks the joiner (which holds the key package's
 /// private parts) for the next WELC evaluation.
-fn welcome_world() -> (Vec<Vec<String>>, String, Keys) {
+fn welcome_world() -> (Vec<Vec<String>>, String, Keys) { welcome_world_named("g") }
+fn welcome_world_named(name: &str) -> (Vec<Vec<String>>, String, Keys) {
     let (creator, joiner) = (MDK::new(MdkMemoryStorage::new()), MDK::new(MdkMemoryStorage::new()));
     let (ck, jk) = (Keys::generate(), Keys::generate());
     let relay = RelayUrl::parse("wss://test.relay").unwrap();
     let (c, t, _) = joiner.create_key_package_for_event(&jk.public_key(), vec![relay.clone()]).unwrap();
     let kpe = EventBuilder::new(Kind::MlsKeyPackage, c).tags(t).sign_with_keys(&jk).unwrap();
-    let cfg = NostrGroupConfigData::new("g".into(), "d".into(), None, None, None, vec![relay], vec![ck.public_key()]);
+    let cfg = NostrGroupConfigData::new(name.into(), "d".into(), None, None, None, vec![relay], vec![ck.public_key()]);
     let r = creator.create_group(&ck.public_key(), vec![kpe], cfg).unwrap();
     let rumor = &r.welcome_rumors[0];
     let tags: Vec<Vec<String>> = rumor.tags.iter().map(|t| t.as_slice().to_vec()).collect();
@@ -232,10 +233,15 @@ fn main() {
     }
     // --- welcome rumors (each evaluation consumes a fresh joiner)
     for i in 0..n {
-        let muts: Vec<&str> = vec!["valid", "wrong-kind", "encoding-dropped", "encoding-hex", "encoding-uppercase", "e-dropped", "e-empty", "client-empty", "client-dropped", "relays-dropped", "relays-bad", "trailing-bytes", "non-base64-char", "truncated", "padding-or-space"];
+        let muts: Vec<&str> = vec!["valid", "wrong-kind", "encoding-dropped", "encoding-hex", "encoding-uppercase", "e-dropped", "e-empty", "client-empty", "client-dropped", "relays-dropped", "relays-bad", "padding-dropped", "trailing-bytes", "non-base64-char", "truncated", "padding-or-space"];
         let m = muts[(i as usize) % muts.len()];
         for which in [m, muts[r.below(muts.len() as u64) as usize]] {
-            let (tags, content, jk) = welcome_world();
+            // the padding mutation needs content whose length is not a multiple of three: vary the group name until it is padded
+            let (tags, content, jk) = if which == "padding-dropped" {
+                let mut w = welcome_world_named("g");
+                for name in ["gg", "ggg", "gggg"] { if w.1.ends_with('=') { break; } w = welcome_world_named(name); }
+                w
+            } else { welcome_world() };
             ctx.welcome = Some((tags.clone(), content.clone(), jk, vec![]));
             let set = |name: &str, vals: &[&str]| -> Vec<Vec<String>> { tags.iter().map(|t| if t[0] == name { std::iter::once(name.to_string()).chain(vals.iter().map(|s| s.to_string())).collect() } else { t.clone() }).collect() };
             let drop = |name: &str| -> Vec<Vec<String>> { tags.iter().filter(|t| t[0] != name).cloned().collect() };
@@ -255,6 +261,7 @@ fn main() {
                 "non-base64-char" => { let mut s = content.clone(); s.replace_range(5..6, "!"); (444, tags.clone(), s, Some("welcome content that is not base64")) }
                 "truncated" => { let mut x = raw.clone(); x.truncate(raw.len() / 2); (444, tags.clone(), BASE64.encode(&x), Some("a truncated welcome")) }
                 "padding-or-space" => (444, tags.clone(), format!(" {content}"), Some("welcome content that is not base64")),
+                "padding-dropped" => (444, tags.clone(), content.trim_end_matches('=').to_string(), if content.ends_with('=') { Some("welcome content that is not canonical base64") } else { None }),
                 _ => (444, tags.clone(), content.clone(), None),
             };
             let good: Vec<String> = t.iter().filter(|x| x[0] == "relays").flat_map(|x| x.iter().skip(1)).filter(|u| RelayUrl::parse(u).is_ok()).map(|u| hex(u.as_bytes())).collect();
